@@ -10,6 +10,7 @@ import (
 	"go/token"
 	"go/types"
 	"math/bits"
+	"regexp"
 	"unicode"
 
 	"golang.org/x/tools/go/ssa"
@@ -265,6 +266,7 @@ func init() {
 		"fmt.Sprintln": func(fr *frame, a []value) value {
 			return fr.i.sprintArgs(a[0].([]value), true)
 		},
+		"regexp.QuoteMeta": func(fr *frame, a []value) value { return regexp.QuoteMeta(fr.i.conc(a[0]).(string)) },
 		"unicode.SimpleFold": func(fr *frame, a []value) value { return unicode.SimpleFold(fr.i.conc(a[0]).(int32)) },
 		// ---- errors.Is / errors.As (the std versions use reflection)
 		"errors.Is": func(fr *frame, a []value) value {
